@@ -112,7 +112,7 @@ func c15(c *engine.Ctx) {
 		targets = append(targets, s)
 		tnames = append(tnames, authdShort(s.CalleeName()))
 	}
-	c.Floor("verify-gates", len(targets), 4)
+	c.Floor("verify-gates", len(targets), 3)
 	if n := len(loop.Body.List); n > 0 {
 		if st := authdStmtSite(f, loop.Body.List[n-1]); st != nil {
 			targets = append(targets, st)
@@ -304,94 +304,37 @@ func c15(c *engine.Ctx) {
 	}
 
 	// ---- (4) pubkey-bound ----
-	{
-		var pkObj types.Object
-		if se, isSel := ast.Unparen(vb.Call.Fun).(*ast.SelectorExpr); isSel {
-			pkObj = engine.ObjOf(info, se.X)
-		}
-		if pkObj == nil || sigAcc == nil {
-			c.Undecided("pubkey-bound", f.Name, "receiver of VerifyBytes / signing account not identified")
-		} else {
-			// every assignment to the key: from the signature element (tx supplied) or from the account
-			nTx := 0
-			for _, d := range authdAssignsTo(f, pkObj) {
-				ok, why := false, "the verifying key is assigned from `"+c15Str(d)+"`: neither the account's stored key nor the signature's key"
-				if d != nil {
-					if call, is := ast.Unparen(d).(*ast.CallExpr); is && strings.HasSuffix(authdCalleeName(info, call), ".GetPubKey") {
-						if se, isSel := ast.Unparen(call.Fun).(*ast.SelectorExpr); isSel && engine.ObjOf(info, se.X) == sigAcc {
-							ok, why = true, "account's stored key"
-						}
-					}
-					if se, isSel := ast.Unparen(d).(*ast.SelectorExpr); isSel && se.Sel.Name == "PubKey" && loop.Value != nil && engine.ObjOf(info, se.X) == engine.ObjOf(info, loop.Value) {
-						ok, why = true, "signature's key (bound below)"
-						nTx++
-					}
-				}
-				c.Check("pubkey-bound", f.Name+" key source "+c15Str(d), vb.Pos(), ok, why)
-			}
-			c.Floor("pubkey-bound sources", nTx, 1)
-			// SetPubKey(pubKey): master accounts pass the address comparison
-			sets := f.CallsTo(".SetPubKey")
-			c.Floor("pubkey-bound SetPubKey", len(sets), 1)
-			for _, sp := range sets {
-				ok, why := c15AddressBound(f, g, sp, pkObj, sigAcc)
-				c.Check("pubkey-bound", f.Name+" SetPubKey address check", sp.Pos(), ok, why)
-				// and only when the account has no key yet
-				noKey := false
-				for _, gt := range g.Gates(sp) {
-					for _, fc := range authdFacts(gt) {
-						x, op, y, isCmp := authdCmp(fc)
-						if isCmp && op == token.EQL && isNil(y) {
-							if call, is := ast.Unparen(x).(*ast.CallExpr); is && strings.HasSuffix(authdCalleeName(info, call), ".GetPubKey") {
-								noKey = true
-							}
-						}
-					}
-				}
-				c.Check("pubkey-bound", f.Name+" SetPubKey only when unset", sp.Pos(), noKey, "an account's key may be set only when GetPubKey() == nil")
-			}
-			// both present: bytes.Equal gate alone aborts
-			okEq, whyEq := false, "no `!bytes.Equal(pubKey.Bytes(), account.GetPubKey().Bytes())` test aborting the transaction"
-			for _, eq := range f.CallsTo("bytes.Equal") {
-				if !engine.Mentions(info, eq.Call, pkObj) || !engine.Mentions(info, eq.Call, sigAcc) {
-					continue
-				}
-				for _, b := range g.CFG.Blocks {
-					if !b.Live || len(b.Succs) != 2 || len(b.Nodes) == 0 {
-						continue
-					}
-					cond, isE := b.Nodes[len(b.Nodes)-1].(ast.Expr)
-					if !isE || !containsExpr(cond, eq.Call) {
-						continue
-					}
-					fc := authdStripNot(cond, false)
-					if ast.Unparen(fc.E) != ast.Expr(eq.Call) || !fc.Neg {
-						whyEq = "the key-equality test is combined with another condition: `" + engine.ExprString(cond) + "`"
-						continue
-					}
-					if c15BlockAborts(f, b.Succs[0]) {
-						okEq, whyEq = true, "mismatch aborts"
-					}
-				}
-			}
-			c.Check("pubkey-bound", f.Name+" supplied key equals stored key", vb.Pos(), okEq, whyEq)
-		}
-	}
+	c15PubKeyBound(c, p, f, loop, vb, sigAcc)
 
 	// ---- (5) sequence-plus-one & persisted ----
 	{
 		seqs := f.CallsTo(".SetSequence")
-		c.Floor("sequence-plus-one", len(seqs), 2)
+		c.Floor("sequence-plus-one", len(seqs), 1)
+		persistPats := []string{c15A + "(AccountKeeper).SetAccount", c15A + "(AccountKeeper).SetSessionAccount", c15A + "(AccountKeeperI).SetAccount", c15A + "(AccountKeeperI).SetSessionAccount"}
+		storesAcc := func(w *engine.Site) bool {
+			last := w.Call.Args[len(w.Call.Args)-1]
+			if engine.ObjOf(info, last) == sigAcc && sigAcc != nil {
+				return true
+			}
+			for _, d := range authdAssignsTo(f, sigAcc) {
+				if d != nil && authdSameExpr(d, last) {
+					return true
+				}
+			}
+			return false
+		}
 		for i, s := range seqs {
 			ok, why := false, "the new sequence must be <account>.GetSequence() + 1 on the signing account"
 			se, _ := ast.Unparen(s.Call.Fun).(*ast.SelectorExpr)
 			if se != nil && len(s.Call.Args) == 1 && engine.ObjOf(info, se.X) == sigAcc && sigAcc != nil {
-				if be, isB := ast.Unparen(s.Call.Args[0]).(*ast.BinaryExpr); isB && be.Op == token.ADD {
+				arg := authdResolveLocal(f, s.Call.Args[0])
+				if be, isB := ast.Unparen(arg).(*ast.BinaryExpr); isB && be.Op == token.ADD {
 					x, y := be.X, be.Y
 					if _, isC := authdConstInt(info, x); isC {
 						x, y = y, x
 					}
 					k, isK := authdConstInt(info, y)
+					x = authdResolveLocal(f, x)
 					if call, is := ast.Unparen(x).(*ast.CallExpr); is && isK && k == 1 && strings.HasSuffix(authdCalleeName(info, call), ".GetSequence") {
 						if s2, isSel := ast.Unparen(call.Fun).(*ast.SelectorExpr); isSel && engine.ObjOf(info, s2.X) == sigAcc {
 							ok, why = true, "GetSequence()+1"
@@ -400,23 +343,68 @@ func c15(c *engine.Ctx) {
 				}
 			}
 			c.Check("sequence-plus-one", f.Name+" SetSequence#"+authdItoa(i+1), s.Pos(), ok, why)
-			// persisted afterwards in the same block: the next Set*Account call is dominated by it and stores that account
+			// persisted: after the increment the iteration cannot end without a Set*Account of that account
+			avoid := map[*cfg.Block]bool{}
 			stored := false
-			for _, w := range f.CallsTo(c15A+"(AccountKeeper).SetAccount", c15A+"(AccountKeeper).SetSessionAccount") {
-				if w.Block != s.Block || !g.Dominates(s, w) {
+			for _, w := range f.CallsTo(persistPats...) {
+				if !storesAcc(w) || !g.ReachableAfter(s, w) {
 					continue
 				}
-				last := w.Call.Args[len(w.Call.Args)-1]
-				if engine.ObjOf(info, last) == sigAcc && sigAcc != nil {
-					stored = true
+				if w.Block == s.Block {
+					stored = true // straight-line: same block, after the increment
 				}
-				for _, d := range authdAssignsTo(f, sigAcc) {
-					if d != nil && authdSameExpr(d, last) {
-						stored = true
+				avoid[w.Block] = true
+			}
+			if !stored && len(avoid) > 0 {
+				stored = true
+				seen := map[*cfg.Block]bool{}
+				stack := append([]*cfg.Block{}, s.Block.Succs...)
+				for len(stack) > 0 {
+					b := stack[len(stack)-1]
+					stack = stack[:len(stack)-1]
+					if seen[b] || avoid[b] || !b.Live {
+						continue
+					}
+					seen[b] = true
+					for _, n := range b.Nodes {
+						if !containsExpr(loop.Body, n) {
+							stored = false // left the iteration without persisting
+						}
+					}
+					stack = append(stack, b.Succs...)
+				}
+			}
+			c.Check("sequence-plus-one", f.Name+" SetSequence#"+authdItoa(i+1)+" persisted", s.Pos(), stored, "after the increment every path to the end of the iteration must write the account back with SetAccount/SetSessionAccount")
+		}
+		// the keeper call matches the account kind
+		for _, w := range f.CallsTo(persistPats...) {
+			if !containsExpr(loop.Body, w.Call) {
+				continue
+			}
+			isSess := strings.HasSuffix(w.CalleeName(), "SetSessionAccount")
+			ok := false
+			for _, gt := range g.Gates(w) {
+				for _, fc := range authdFacts(gt) {
+					if id, isID := ast.Unparen(fc.E).(*ast.Ident); isID {
+						o := info.ObjectOf(id)
+						// the flag selecting sigAcc: comma-ok of the session lookup
+						flag := false
+						engine.InspectBody(f, func(n ast.Node) {
+							if as, isAs := n.(*ast.AssignStmt); isAs && len(as.Lhs) == 2 && len(as.Rhs) == 1 && engine.ObjOf(info, as.Lhs[1]) == o {
+								if ix, isIx := ast.Unparen(as.Rhs[0]).(*ast.IndexExpr); isIx {
+									if _, isMap := info.TypeOf(ix.X).Underlying().(*types.Map); isMap {
+										flag = true
+									}
+								}
+							}
+						})
+						if flag && fc.Neg != isSess {
+							ok = true
+						}
 					}
 				}
 			}
-			c.Check("sequence-plus-one", f.Name+" SetSequence#"+authdItoa(i+1)+" persisted", s.Pos(), stored, "the incremented account must be written back with SetAccount/SetSessionAccount right after")
+			c.Check("sequence-plus-one", f.Name+" "+authdShort(w.CalleeName())+" for the matching account kind", w.Pos(), ok, "SetSessionAccount must run exactly for session signers and SetAccount for master signers (session flag of the lookup)")
 		}
 	}
 
@@ -622,6 +610,296 @@ func c15VerifyCond(info *types.Info, cond ast.Expr, onTrue bool, simulate types.
 }
 
 // c15BlockAborts: the block (straight line) ends in a return whose third result is true.
+// c15KeyCtx is the function in which the verifying key is resolved: the ante
+// closure itself, or a package-local helper it delegates to (roles mapped
+// through the call's arguments).
+type c15KeyCtx struct {
+	f       *engine.Fn
+	keys    map[types.Object]bool // variables holding the key to verify with
+	acc     types.Object          // the signing account
+	sigElem types.Object          // the signature element supplied by the transaction
+	aborts  func(b *cfg.Block) bool
+	flagOK  func(o types.Object) bool // o is the session flag (comma-ok of the session lookup)
+}
+
+func (k *c15KeyCtx) isKey(info *types.Info, e ast.Expr) bool {
+	o := engine.ObjOf(info, e)
+	_, isID := ast.Unparen(e).(*ast.Ident)
+	return isID && o != nil && k.keys[o]
+}
+
+// c15PubKeyBound: rule (4), helper transparent.
+func c15PubKeyBound(c *engine.Ctx, p *engine.Prog, f *engine.Fn, loop *ast.RangeStmt, vb *engine.Site, sigAcc types.Object) {
+	info := f.Info()
+	g := f.Graph()
+	var pkObj types.Object
+	if se, isSel := ast.Unparen(vb.Call.Fun).(*ast.SelectorExpr); isSel {
+		pkObj = engine.ObjOf(info, se.X)
+	}
+	if pkObj == nil || sigAcc == nil {
+		c.Undecided("pubkey-bound", f.Name, "receiver of VerifyBytes / signing account not identified")
+		return
+	}
+	var sigElem types.Object
+	if loop.Value != nil {
+		sigElem = engine.ObjOf(info, loop.Value)
+	}
+	sessFlag := func(o types.Object) bool {
+		okSess := false
+		engine.InspectBody(f, func(n ast.Node) {
+			if as, isAs := n.(*ast.AssignStmt); isAs && len(as.Lhs) == 2 && len(as.Rhs) == 1 && engine.ObjOf(info, as.Lhs[1]) == o {
+				if ix, isIx := ast.Unparen(as.Rhs[0]).(*ast.IndexExpr); isIx {
+					if _, isMap := info.TypeOf(ix.X).Underlying().(*types.Map); isMap {
+						okSess = true
+					}
+				}
+			}
+		})
+		return okSess && len(authdAssignsTo(f, o)) == 1
+	}
+	k := &c15KeyCtx{f: f, keys: map[types.Object]bool{pkObj: true}, acc: sigAcc, sigElem: sigElem,
+		aborts: func(b *cfg.Block) bool { return c15BlockAborts(f, b) }, flagOK: sessFlag}
+
+	// delegated to a helper?  pubKey, res := helper(sig, sigAcc, isSession)
+	defs := authdAssignsTo(f, pkObj)
+	if len(defs) == 1 && defs[0] != nil {
+		if call, isCall := ast.Unparen(defs[0]).(*ast.CallExpr); isCall {
+			if hs := f.SiteOf(call); hs != nil {
+				if fn, _ := hs.Callee.(*types.Func); fn != nil && p.FnOf(fn) != nil {
+					h := p.FnOf(fn)
+					hk, why := c15HelperCtx(f, h, hs, pkObj, sigAcc, sigElem, sessFlag, vb)
+					if hk == nil {
+						c.Check("pubkey-bound", f.Name+" key resolution via "+h.Name, hs.Pos(), false, why)
+						return
+					}
+					c.Check("pubkey-bound", f.Name+" key resolution via "+h.Name, hs.Pos(), true, why)
+					k = hk
+				}
+			}
+		}
+	}
+	_ = g
+	kf := k.f
+	ki := kf.Info()
+	kg := kf.Graph()
+	// every assignment to the key: from the signature element (tx supplied) or from the account
+	nTx := 0
+	for ko := range k.keys {
+		for _, d := range authdAssignsTo(kf, ko) {
+			ok, why := false, "the verifying key is assigned from `"+c15Str(d)+"`: neither the account's stored key nor the signature's key"
+			if d != nil {
+				if call, is := ast.Unparen(d).(*ast.CallExpr); is && strings.HasSuffix(authdCalleeName(ki, call), ".GetPubKey") {
+					if se, isSel := ast.Unparen(call.Fun).(*ast.SelectorExpr); isSel && engine.ObjOf(ki, se.X) == k.acc {
+						ok, why = true, "account's stored key"
+					}
+				}
+				if se, isSel := ast.Unparen(d).(*ast.SelectorExpr); isSel && se.Sel.Name == "PubKey" && k.sigElem != nil && engine.ObjOf(ki, se.X) == k.sigElem {
+					ok, why = true, "signature's key (bound below)"
+					nTx++
+				}
+				if k.isKey(ki, d) {
+					ok, why = true, "copy of the key variable"
+				}
+			}
+			c.Check("pubkey-bound", kf.Name+" key source "+c15Str(d), vb.Pos(), ok, why)
+		}
+	}
+	c.Floor("pubkey-bound sources", nTx, 1)
+	// SetPubKey(pubKey): master accounts pass the address comparison
+	sets := kf.CallsTo(".SetPubKey")
+	c.Floor("pubkey-bound SetPubKey", len(sets), 1)
+	for _, sp := range sets {
+		ok, why := c15AddressBound(k, sp)
+		c.Check("pubkey-bound", kf.Name+" SetPubKey address check", sp.Pos(), ok, why)
+		noKey := false
+		for _, gt := range kg.Gates(sp) {
+			for _, fc := range authdFacts(gt) {
+				x, op, y, isCmp := authdCmp(fc)
+				if isCmp && isNil(x) {
+					x, y = y, x
+				}
+				if isCmp && op == token.EQL && isNil(y) {
+					if call, is := ast.Unparen(x).(*ast.CallExpr); is && strings.HasSuffix(authdCalleeName(ki, call), ".GetPubKey") {
+						noKey = true
+					}
+					// hoisted: stored := acc.GetPubKey(); if stored == nil
+					if o := engine.ObjOf(ki, x); o != nil {
+						if d := authdAssignsTo(kf, o); len(d) == 1 && d[0] != nil {
+							if call, is := ast.Unparen(d[0]).(*ast.CallExpr); is && strings.HasSuffix(authdCalleeName(ki, call), ".GetPubKey") {
+								noKey = true
+							}
+						}
+					}
+				}
+			}
+		}
+		c.Check("pubkey-bound", kf.Name+" SetPubKey only when unset", sp.Pos(), noKey, "an account's key may be set only when GetPubKey() == nil")
+	}
+	// both present: bytes.Equal gate alone aborts
+	okEq, whyEq := false, "no `!bytes.Equal(pubKey.Bytes(), account.GetPubKey().Bytes())` test aborting the transaction"
+	for _, eq := range kf.CallsTo("bytes.Equal", ".Equals") {
+		mk := false
+		for ko := range k.keys {
+			if engine.Mentions(ki, eq.Call, ko) {
+				mk = true
+			}
+		}
+		if !mk || !engine.Mentions(ki, eq.Call, k.acc) {
+			continue
+		}
+		for _, b := range kg.CFG.Blocks {
+			cond := kg.CondOf(b)
+			if cond == nil || !containsExpr(cond, eq.Call) {
+				continue
+			}
+			fc := authdStripNot(cond, false)
+			if ast.Unparen(fc.E) != ast.Expr(eq.Call) {
+				whyEq = "the key-equality test is combined with another condition: `" + engine.ExprString(cond) + "`"
+				continue
+			}
+			failSucc := b.Succs[1]
+			if fc.Neg {
+				failSucc = b.Succs[0]
+			}
+			if k.aborts(failSucc) {
+				okEq, whyEq = true, "mismatch aborts"
+			} else {
+				whyEq = "a key mismatch does not abort"
+			}
+		}
+	}
+	c.Check("pubkey-bound", kf.Name+" supplied key equals stored key", vb.Pos(), okEq, whyEq)
+}
+
+// c15HelperCtx maps the roles into a helper `key, res := h(sig, acc, flag)`
+// and checks that the caller aborts whenever the helper reports failure.
+func c15HelperCtx(f, h *engine.Fn, hs *engine.Site, pkObj, sigAcc, sigElem types.Object, sessFlag func(types.Object) bool, vb *engine.Site) (*c15KeyCtx, string) {
+	info := f.Info()
+	hi := h.Info()
+	g := f.Graph()
+	lhs := authdLhsObjs(f, hs)
+	ki, ri := -1, -1
+	for i, o := range lhs {
+		if o == pkObj {
+			ki = i
+		}
+	}
+	if ki < 0 || len(lhs) != 2 {
+		return nil, "the key is not one of two results (key, result) of the helper"
+	}
+	ri = 1 - ki
+	resObj := lhs[ri]
+	// caller: VerifyBytes reached only when res.IsOK(); the other branch aborts
+	r := g.CheckedGuard(hs, vb)
+	if !r.OK {
+		return nil, "the helper's result does not gate the verification: " + r.Why
+	}
+	fc := authdStripNot(r.Cond, false)
+	call, isCall := ast.Unparen(fc.E).(*ast.CallExpr)
+	okGate := false
+	if isCall && strings.HasSuffix(authdCalleeName(info, call), ".IsOK") {
+		if se, isSel := ast.Unparen(call.Fun).(*ast.SelectorExpr); isSel && engine.ObjOf(info, se.X) == resObj && resObj != nil {
+			// vb reached when IsOK() is true
+			okGate = r.OnTrue != fc.Neg
+		}
+	}
+	if !okGate {
+		return nil, "verification is not restricted to `" + "helper result IsOK()" + "` (found `" + engine.ExprString(r.Cond) + "`)"
+	}
+	// the failing branch of that gate aborts
+	for _, b := range g.CFG.Blocks {
+		if g.CondOf(b) == r.Cond {
+			fail := b.Succs[0]
+			if r.OnTrue {
+				fail = b.Succs[1]
+			}
+			if !c15BlockAborts(f, fail) {
+				return nil, "a failed key resolution does not abort the transaction"
+			}
+		}
+	}
+	// map arguments to parameters
+	ops := authdOperands(h)
+	if h.Decl != nil && h.Decl.Recv != nil {
+		return nil, "helper is a method; roles not mapped"
+	}
+	var acc, sig types.Object
+	flagParam := map[types.Object]types.Object{}
+	sigIsKeyExpr := false
+	for i, a := range hs.Call.Args {
+		if i >= len(ops) || ops[i] == nil {
+			continue
+		}
+		ao := engine.ObjOf(info, a)
+		switch {
+		case ao == sigAcc:
+			acc = ops[i]
+		case ao == sigElem && sigElem != nil:
+			if se, isSel := ast.Unparen(a).(*ast.SelectorExpr); isSel && se.Sel.Name == "PubKey" {
+				sigIsKeyExpr = true
+			}
+			sig = ops[i]
+		default:
+			if se, isSel := ast.Unparen(a).(*ast.SelectorExpr); isSel && se.Sel.Name == "PubKey" && engine.ObjOf(info, se.X) == sigElem {
+				sig, sigIsKeyExpr = ops[i], true
+			} else if ao != nil {
+				flagParam[ops[i]] = ao
+			}
+		}
+	}
+	if acc == nil {
+		return nil, "the signing account is not passed to the helper"
+	}
+	for _, o := range ops {
+		if o != nil && len(authdAssignsTo(h, o)) != 0 && o != sig {
+			return nil, "helper reassigns parameter " + o.Name()
+		}
+	}
+	k := &c15KeyCtx{f: h, keys: map[types.Object]bool{}, acc: acc, sigElem: sig}
+	if sigIsKeyExpr && sig != nil {
+		// the key itself was passed: the parameter is a key variable supplied by the transaction
+		k.keys[sig] = true
+		k.sigElem = nil
+	}
+	// key variables: what is returned at position ki
+	for _, rs := range authdReturns(h) {
+		if len(rs.Results) != 2 {
+			return nil, "helper has a return without (key, result)"
+		}
+		e := rs.Results[ki]
+		if isNil(e) {
+			continue
+		}
+		o := engine.ObjOf(hi, e)
+		if _, isID := ast.Unparen(e).(*ast.Ident); !isID || o == nil {
+			return nil, "helper returns a computed key `" + engine.ExprString(e) + "`"
+		}
+		k.keys[o] = true
+	}
+	if len(k.keys) == 0 {
+		return nil, "helper never returns a key"
+	}
+	k.aborts = func(b *cfg.Block) bool {
+		for _, n := range b.Nodes {
+			if rs, ok := n.(*ast.ReturnStmt); ok && len(rs.Results) == 2 {
+				e := ast.Unparen(rs.Results[ri])
+				if cl, isCL := e.(*ast.CompositeLit); isCL && len(cl.Elts) == 0 {
+					return false // empty (OK) result
+				}
+				if _, isCallE := e.(*ast.CallExpr); isCallE {
+					return true // a constructed error result
+				}
+			}
+		}
+		return false
+	}
+	k.flagOK = func(o types.Object) bool {
+		co := flagParam[o]
+		return co != nil && sessFlag(co)
+	}
+	return k, "roles mapped into " + h.Name + "; the caller aborts unless the helper's result IsOK()"
+}
+
 func c15BlockAborts(f *engine.Fn, b *cfg.Block) bool {
 	for _, n := range b.Nodes {
 		if rs, ok := n.(*ast.ReturnStmt); ok && len(rs.Results) == 3 {
@@ -633,99 +911,106 @@ func c15BlockAborts(f *engine.Fn, b *cfg.Block) bool {
 	return false
 }
 
-// c15AddressBound: SetPubKey(pubKey) is reached, for master accounts, only
-// through the false branch of `pubKey.Address() != sigAcc.GetAddress()` whose
-// true branch aborts; the only way round that test is the session branch of a
-// lone `!isSession` condition.
-func c15AddressBound(f *engine.Fn, g *engine.Graph, sp *engine.Site, pk, acc types.Object) (bool, string) {
+// c15AddressBound: SetPubKey(key) is reached, for master accounts, only
+// through the matching branch of `key.Address() ==/!= acc.GetAddress()` whose
+// mismatch branch aborts; the only way round that test is the session side of
+// a lone session-flag condition.
+func c15AddressBound(k *c15KeyCtx, sp *engine.Site) (bool, string) {
+	f := k.f
+	g := f.Graph()
 	info := f.Info()
-	var addrBlk *cfg.Block
+	var addrBlk, matchSucc *cfg.Block
 	for _, b := range g.CFG.Blocks {
-		if !b.Live || len(b.Succs) != 2 || len(b.Nodes) == 0 {
-			continue
-		}
-		cond, isE := b.Nodes[len(b.Nodes)-1].(ast.Expr)
-		if !isE {
+		cond := g.CondOf(b)
+		if cond == nil {
 			continue
 		}
 		x, op, y, isCmp := authdCmp(authdFact{E: cond})
-		isAddr := func(e ast.Expr, of types.Object, m string) bool {
+		isAddr := func(e ast.Expr, key bool, m string) bool {
 			call, is := ast.Unparen(e).(*ast.CallExpr)
 			if !is || !strings.HasSuffix(authdCalleeName(info, call), "."+m) {
 				return false
 			}
 			se, isSel := ast.Unparen(call.Fun).(*ast.SelectorExpr)
-			return isSel && engine.ObjOf(info, se.X) == of
+			if !isSel {
+				return false
+			}
+			if key {
+				return k.isKey(info, se.X)
+			}
+			return engine.ObjOf(info, se.X) == k.acc
 		}
-		if isCmp && ((isAddr(x, pk, "Address") && isAddr(y, acc, "GetAddress")) || (isAddr(y, pk, "Address") && isAddr(x, acc, "GetAddress"))) {
-			if op != token.NEQ {
+		mentionsKey := false
+		for ko := range k.keys {
+			if engine.Mentions(info, cond, ko) {
+				mentionsKey = true
+			}
+		}
+		if isCmp && ((isAddr(x, true, "Address") && isAddr(y, false, "GetAddress")) || (isAddr(y, true, "Address") && isAddr(x, false, "GetAddress"))) {
+			mis, match := b.Succs[0], b.Succs[1]
+			switch op {
+			case token.NEQ:
+			case token.EQL:
+				mis, match = match, mis
+			default:
 				return false, "address test uses " + op.String()
 			}
-			if !c15BlockAborts(f, b.Succs[0]) {
+			if !k.aborts(mis) {
 				return false, "an address mismatch does not abort"
 			}
-			addrBlk = b
-		} else if isE && engine.Mentions(info, cond, pk) && strings.Contains(engine.ExprString(cond), ".Address()") && strings.Contains(engine.ExprString(cond), ".GetAddress()") {
+			addrBlk, matchSucc = b, match
+		} else if mentionsKey && strings.Contains(engine.ExprString(cond), ".Address()") && strings.Contains(engine.ExprString(cond), ".GetAddress()") {
 			return false, "the address test is combined with another condition: `" + engine.ExprString(cond) + "`"
 		}
 	}
 	if addrBlk == nil {
 		return false, "no `pubKey.Address() != account.GetAddress()` test"
 	}
-	if !g.Reach(addrBlk.Succs[1], sp.Block, nil) {
+	if !(matchSucc == sp.Block || g.Reach(matchSucc, sp.Block, nil)) {
 		return false, "SetPubKey is not reached from the matching-address branch"
 	}
-	// paths to SetPubKey that avoid the address test must come through a lone session test
 	avoid := map[*cfg.Block]bool{addrBlk: true}
 	if !g.Reach(g.CFG.Blocks[0], sp.Block, avoid) {
 		return true, "every path to SetPubKey passes the address test"
 	}
-	// find the innermost condition block that dominates both and decides about entering the test
-	var cands []*cfg.Block
+	// the innermost condition that dominates both and decides about entering the test
+	type cand struct {
+		b   *cfg.Block
+		idx int
+	}
+	var cands []cand
 	for _, b := range g.CFG.Blocks {
-		if !b.Live || len(b.Succs) != 2 || len(b.Nodes) == 0 || b == addrBlk || !g.BlockDominates(b, addrBlk) || !g.BlockDominates(b, sp.Block) {
+		if g.CondOf(b) == nil || b == addrBlk || !g.BlockDominates(b, addrBlk) || !g.BlockDominates(b, sp.Block) {
 			continue
 		}
-		if _, isE := b.Nodes[len(b.Nodes)-1].(ast.Expr); !isE {
-			continue
-		}
-		if b.Succs[0] == addrBlk || g.BlockDominates(b.Succs[0], addrBlk) {
-			cands = append(cands, b)
+		for i := 0; i < 2; i++ {
+			if (b.Succs[i] == addrBlk || g.BlockDominates(b.Succs[i], addrBlk)) && !(b.Succs[1-i] == addrBlk || g.BlockDominates(b.Succs[1-i], addrBlk)) {
+				cands = append(cands, cand{b, i})
+			}
 		}
 	}
-	for _, b := range cands {
+	for _, cd := range cands {
 		inner := true
 		for _, o := range cands {
-			if o != b && g.BlockDominates(b, o) {
+			if o.b != cd.b && g.BlockDominates(cd.b, o.b) {
 				inner = false
 			}
 		}
 		if !inner {
 			continue
 		}
-		cond := b.Nodes[len(b.Nodes)-1].(ast.Expr)
+		cond := g.CondOf(cd.b)
 		fc := authdStripNot(cond, false)
 		id, isID := ast.Unparen(fc.E).(*ast.Ident)
-		if !isID || !fc.Neg {
-			return false, "the address test is skipped under `" + engine.ExprString(cond) + "`, not under a lone session test"
+		// value of the flag on the branch that enters the address test
+		flagOnTest := (cd.idx == 0) != fc.Neg
+		if !isID || flagOnTest {
+			return false, "the address test is skipped under `" + engine.ExprString(cond) + "`, not exactly for session accounts"
 		}
-		// the flag must be the comma-ok of the session map lookup
-		o := info.ObjectOf(id)
-		okSess := false
-		engine.InspectBody(f, func(n ast.Node) {
-			if as, isAs := n.(*ast.AssignStmt); isAs && len(as.Lhs) == 2 && len(as.Rhs) == 1 && engine.ObjOf(info, as.Lhs[1]) == o {
-				if ix, isIx := ast.Unparen(as.Rhs[0]).(*ast.IndexExpr); isIx {
-					if _, isMap := info.TypeOf(ix.X).Underlying().(*types.Map); isMap {
-						okSess = true
-					}
-				}
-			}
-		})
-		if !okSess || len(authdAssignsTo(f, o)) != 1 {
+		if k.flagOK == nil || !k.flagOK(info.ObjectOf(id)) {
 			return false, "the flag skipping the address test is not the single comma-ok of the session lookup"
 		}
-		// avoiding both the test and this block's bypass edge, SetPubKey is unreachable
-		avoid2 := map[*cfg.Block]bool{addrBlk: true, b: true}
+		avoid2 := map[*cfg.Block]bool{addrBlk: true, cd.b: true}
 		if g.Reach(g.CFG.Blocks[0], sp.Block, avoid2) {
 			return false, "SetPubKey is reachable without the address test by a path not controlled by the session test"
 		}
